@@ -32,9 +32,14 @@ def parse_document(
     returnable: list[PreLine | list] = []  # A new returnable list
     free_tab_mode: int = 0  # Contains the line number free tab was started on
 
-    for count, line in enumerate(text):
+    first_line = True  # No non-blank line has been handled yet
+
+    for line in text:
         if line.content.strip() == "":
             continue
+
+        count = 0 if first_line else 1
+        first_line = False
 
         if line.content.startswith('"""') and (count == 0 or free_tab_mode):
             if free_tab_mode == 0:
